@@ -201,6 +201,13 @@ def make_ops():
     add("key set as_dict", lambda f, d: ("export", json.dumps(f["set"].as_dict(), sort_keys=True)))
     add("flattened JSON sign+verify [oct key]", lambda f, d: obs_verify(call(lambda: jws.deserialize_json(jws.serialize_json({"protected": {"alg": "HS256"}, "header": {"kid": "k"}}, PT, f["oct"]), f["oct"]))))
     add("rfc7797 sign [oct key]", lambda f, d: ("7797", call(rfc7797.serialize_compact, {"alg": "HS256", "b64": False, "crit": ["b64"]}, "hello", f["oct"]).ok))
+    b64hdr = {"alg": "HS512", "b64": False, "crit": ["b64"]}
+    add("rfc7797 sign [shared plain JWSRegistry]", lambda f, d: ("7797", (lambda r: r.ok or type(r.exc).__name__)(call(rfc7797.serialize_compact, dict(b64hdr), "hello", f["oct"], registry=f["jwsreg"]))))
+    add("rfc7797 verify [shared plain JWSRegistry]", lambda f, d: ("7797", (lambda r: bytes(r.value.payload) if r.ok else type(r.exc).__name__)(
+        call(rfc7797.deserialize_compact, rfc7797.serialize_compact(dict(b64hdr), "hello", A.jkey(K("oct32"), "bytes"), algorithms=["HS512"]), f["oct"], registry=f["jwsreg"]))))
+    add("sign with b64 header via plain jws [shared JWSRegistry]", lambda f, d: obs_sign(call(jws.serialize_compact, dict(b64hdr), b"hello", f["oct"], registry=f["jwsreg"]), K("oct32")))
+    add("verify b64=false token via plain jws [shared JWSRegistry]", lambda f, d: obs_verify(call(
+        jws.deserialize_compact, rfc7797.serialize_compact(dict(b64hdr), "hello", A.jkey(K("oct32"), "bytes"), algorithms=["HS512"]), f["oct"], registry=f["jwsreg"])))
     add("jwt.encode HS256 [oct key]", lambda f, d: obs_sign(call(jwt.encode, {"alg": "HS256"}, {"iss": "joe"}, f["oct"]), K("oct32")))
     add("jwt.decode HS256 [oct key]", lambda f, d: (lambda r: ("claims", r.value.claims, tuple(sorted(r.value.header))) if r.ok else ("rej", type(r.exc).__name__))(call(jwt.decode, ref_token("HS256", "oct32"), f["oct"])))
     # JWE
@@ -221,6 +228,7 @@ def make_ops():
     add("decrypt A128KW [oct16 key]", lambda f, d: obs_decrypt(call(jwe.decrypt_compact, ref_jwe("A128KW", "oct16"), f["oct16"])))
     add("decrypt A192KW not allowed by default", lambda f, d: obs_decrypt(call(jwe.decrypt_compact, ref_jwe("A192KW", "oct24"), A.jkey(K("oct24"), "bytes"))))
     add("decrypt PBES2 [oct16 key, shared JWERegistry]", lambda f, d: obs_decrypt(call(jwe.decrypt_compact, ref_jwe("PBES2-HS256+A128KW", "oct16"), f["oct16"], registry=f["jwereg"])))
+    add("decrypt PBES2 second token [oct16 key, shared JWERegistry]", lambda f, d: obs_decrypt(call(jwe.decrypt_compact, ref_jwe("PBES2-HS256+A128KW", "oct16", kid="second"), f["oct16"], registry=f["jwereg"])))
     return ops
 
 
@@ -319,7 +327,8 @@ CONC_MENU = [
     "encrypt A128KW+A128CBC-HS256 [oct16 key]", "encrypt dir+A256GCM [oct key]", "decrypt ECDH-ES [ec key]", "decrypt dir+A256GCM [oct key]",
     "jwt.encode HS256 [oct key]", "verify HS512 allow-list [oct key]", "verify HS512 not allowed by default [oct key]", "key set as_dict",
     "verify HS256 allow-list HS256 only [oct key]", "verify HS384 rejected by allow-list HS256 [oct key]", "decrypt A192KW allow-list [oct24 key]",
-    "decrypt A192KW not allowed by default",
+    "decrypt A192KW not allowed by default", "decrypt PBES2 [oct16 key, shared JWERegistry]", "decrypt PBES2 second token [oct16 key, shared JWERegistry]",
+    "encrypt PBES2 [oct16 key, shared JWERegistry]", "decrypt A128KW [oct16 key]",
 ]
 _ISO = {}
 NEEDS = {}
@@ -380,7 +389,7 @@ def numbers_of(key):
     return rjwk.export(raw, private=key.is_private)
 
 
-QUICK_MENU = [0, 1, 2, 5, 6, 7, 8, 9, 11, 15, 18, 20, 21, 22]
+QUICK_MENU = [0, 1, 2, 5, 6, 7, 8, 9, 11, 12, 15, 18, 20, 21, 22, 25, 26]
 
 
 def h_pairs(ctx):
@@ -390,9 +399,28 @@ def h_pairs(ctx):
         [c for c in itertools.combinations_with_replacement(range(0, len(CONC_MENU), 3), 3)]
     combo = ctx.choose("operations", combos)
     names = [CONC_MENU[i] for i in combo]
+    warm = ctx.choose("shared-objects", ["cold", "every operation ran once before"])
     base = [iso(n) for n in names]
     fx = fixtures(sorted({x for n in names for x in NEEDS[n]}))
     del IV_LOG[:]
+    if warm != "cold":
+        # non-initial state: caches and lazily built members of the shared objects are filled by a sequential run of the same operations
+        rseam.install()
+        pick_seam.install()
+        try:
+            for i, n in enumerate(names):
+                rseam.bind_thread(f"warm{i}")
+                try:
+                    w = call(lambda n=n: ops()[n](fx, _ThreadDraws(f"warm{i}")))
+                finally:
+                    rseam.unbind_thread()
+                obs = w.value if w.ok else ("raised", type(w.exc).__name__)
+                if obs != base[i]:
+                    return Outcome("warm-up:BAD", [viol(f"outcome of a call depends on earlier calls on shared objects [{n}]",
+                                                         f"sequential warm-up {names[:i + 1]}: observed {str(obs)[:160]}, in isolation {str(base[i])[:160]}")], nontrivial=(combo, "warm", i))
+        finally:
+            pick_seam.uninstall()
+            rseam.uninstall()
     src = os.path.join(os.environ.get("VERIF_REPO", "/repo"), "src", "joserfc")
     opfiles = ("rfc7517/models.py", "_keys.py", "rfc7515/model.py", "rfc7516/models.py") if (config.thorough() and ctx.choose("granularity", ["line", "opcode"]) == "opcode") else ()
     sch = Scheduler(ctx, src, opcode_files=opfiles)
@@ -444,7 +472,7 @@ def h_pairs(ctx):
     pick_seam.uninstall()
     rseam.uninstall()
     iv_check("concurrent calls followed by sequential ones")
-    return Outcome(f"{len(names)}T:pre{npre}:{'ok' if not vs else 'BAD'}", vs, nontrivial=(combo, tuple(ctx.choices[3:])))
+    return Outcome(f"{len(names)}T:pre{npre}:{warm[:4]}:{'ok' if not vs else 'BAD'}", vs, nontrivial=(combo, tuple(ctx.choices[2:])))
 
 
 class _ThreadDraws:
